@@ -6,6 +6,10 @@ import Ibx.Spec.Store
   are built per call), so "reopen" is the identity on this state.  Ids are fresh tokens supplied by the
   generator (`next`, the per-mailbox rank of the id among all ids ever handed out — the clock and the
   counter are parameters); sha1 directory naming is abstracted to the mailbox name.
+  That the code's generator DOES supply a token no listed message carries is a theorem about the model of the
+  generator and of newMessage's re-draw loop (Ibx/Model/FileIds.lean, Props/C07Ids.lean: `new_id_not_listed`), and
+  `generated_delivery_refines_spec` shows a delivery with the generated id to be this model's delivery up to the
+  renaming real id ↦ rank.
 -/
 namespace Ibx.Model.FileStore
 open Ibx Ibx.Spec.Store
